@@ -130,6 +130,32 @@ fn negotiate_version(greeting: Message) -> ZmqResult<ZmtpVersion> {
     }
 }
 
+/// Forgets `key` without ever parking the calling thread.
+///
+/// The blocking `*_sync` operations of `scc::HashMap` wait for the bucket lock in a fair
+/// queue. A task that queued for that lock asynchronously (a peer being registered while
+/// a send was blocked on the same bucket, say) is ahead of us, and on a current-thread
+/// runtime it can only run on this very thread: waiting for it here would deadlock the
+/// executor. So when the entry cannot be locked right away, a spawned task finishes the
+/// removal instead.
+pub(crate) fn remove_peer_entry<V: Send + Sync + 'static>(
+    map: &std::sync::Arc<scc::HashMap<PeerIdentity, V>>,
+    key: &PeerIdentity,
+) {
+    match map.try_entry(key.clone()) {
+        Some(scc::hash_map::Entry::Occupied(entry)) => {
+            let _ = entry.remove_entry();
+        }
+        Some(scc::hash_map::Entry::Vacant(_)) => {}
+        None => {
+            let (map, key) = (map.clone(), key.clone());
+            let _ = crate::async_rt::task::spawn(async move {
+                let _ = map.remove_async(&key).await;
+            });
+        }
+    }
+}
+
 pub(crate) async fn greet_exchange(raw_socket: &mut FramedIo) -> ZmqResult<ZmtpVersion> {
     raw_socket
         .write_half
